@@ -199,6 +199,22 @@ func c11Calls() []c11Call {
 			return r2(json.MarshalContext(json.SetFieldQueryToContext(context.Background(), e.q3), val))
 		}},
 		{"MarshalContext(no query)", func(e *c11Env) string { return r2(json.MarshalContext(context.Background(), val)) }},
+		{"MarshalContext / MarshalIndent / MarshalNoEscape / Encoder+indent (marshaler error, unsupported type)", func(e *c11Env) string {
+			// every entry point has its own error path on which the pooled context is released
+			bad := []interface{}{c11Mixed{A: 1, E: []c11Err{{1}}}, map[string]interface{}{"c": make(chan int)}}
+			var sb strings.Builder
+			for _, x := range bad {
+				sb.WriteString(r2(json.MarshalContext(context.Background(), x)) + " | ")
+				sb.WriteString(r2(json.MarshalIndent(x, "", " ")) + " | ")
+				sb.WriteString(r2(json.MarshalNoEscape(x)) + " | ")
+				sb.WriteString(r2(json.MarshalWithOption(x, json.Colorize(json.DefaultColorScheme))) + " | ")
+				var w bytes.Buffer
+				en := json.NewEncoder(&w)
+				en.SetIndent("", " ")
+				sb.WriteString(r2(nil, en.EncodeContext(context.Background(), x)) + " | ")
+			}
+			return sb.String()
+		}},
 		{"MarshalContext(context with a value, context-aware marshaler)", func(e *c11Env) string {
 			return r2(json.MarshalContext(context.WithValue(context.Background(), c11Key{}, "secret"), []interface{}{c11Ctx{}, &c11Ctx{}}))
 		}},
@@ -379,9 +395,15 @@ func c11SetPool(f func(n int) int) {
 	json.VerifShimSet(json.VerifShimHooks{PoolGet: f})
 }
 
+const c11DoublePut = " !! an object was put into a pool that already held it"
+
 func c11RunCall(cl *c11Call, e *c11Env) (out string) {
 	if p, msg := util.Safe(func() { out = cl.run(e) }); p {
-		return "PANIC:" + util.ErrClass(msg)
+		out = "PANIC:" + util.ErrClass(msg)
+	}
+	// generic pool invariant (the pool shim counts violations): two later Gets would hand the object to two users
+	if json.VerifPoolDoublePuts() > 0 {
+		out += c11DoublePut
 	}
 	return out
 }
@@ -397,6 +419,9 @@ func c11Cold(c *work.Ctx, calls []c11Call) []string {
 	for i := range calls {
 		c11Reset()
 		cold[i] = c11RunCall(&calls[i], newC11Env())
+		if c.Shard == 0 && strings.HasSuffix(cold[i], c11DoublePut) {
+			c.Violation("pool : "+calls[i].name+" alone puts an object into a pool twice", calls[i].name, cold[i])
+		}
 	}
 	c.RefCheck(1)
 	if fresh != cold[k] {
